@@ -4,5 +4,5 @@ f=$1; n=$2
 tmp=$(dirname $f)/_goal_tmp.v
 head -n $((n-1)) $f > $tmp
 echo "Show. Admitted." >> $tmp
-cd /verif/coq && coqc -Q theories RZ $tmp 2>&1 | head -${3:-60}
+cd "$(dirname "$0")/../coq" && coqc -Q theories RZ $tmp 2>&1 | head -${3:-60}
 rm -f $tmp $(dirname $f)/_goal_tmp.vo $(dirname $f)/_goal_tmp.glob $(dirname $f)/._goal_tmp.aux $(dirname $f)/_goal_tmp.vok $(dirname $f)/_goal_tmp.vos
